@@ -63,10 +63,18 @@ package environment
 //@   ensures @C20 setfunction.keep: forall k string :: k != name ==> has(e.functions, k) == old(has(e.functions, k)) && e.functions[k] === old(e.functions[k])
 //@   panics never
 
-// SetLocal as it is used by Set: update the innermost scope that binds the name, or bind it in the
-// innermost scope.  (What the language requires of a *declaration* - bind in the innermost scope
-// whatever the outer ones hold - is stated where declarations execute: the OpLocal, OpCall and
-// OpIterationNext steps of vm.Run.)
+// Declare: what the language requires of a declaration (a parameter, a loop variable, a `local`) - a new
+// variable of the innermost scope, whatever the scopes further out hold.
+//@ func (e *Environment) Declare(name string, val object.Object) (result object.Object)
+//@   requires validObj(val) && scopesOK(e)
+//@   modifies e.local[*][*]
+//@   ensures @C06 declare.result: result === val
+//@   ensures @C06 @C15 declare.innermost: len(e.local) > 0 ==> mapUpdated(e.local[len(e.local) - 1], name, val) && forall i in 0..len(e.local) - 1 :: mapUnchanged(e.local[i])
+//@   ensures @C06 declare.none: len(e.local) == 0 ==> forall i in 0..len(e.local) :: mapUnchanged(e.local[i])
+//@   panics never
+
+// SetLocal as it is used by Set, an assignment: update the innermost scope that binds the name, or bind
+// it in the innermost scope.
 //@ func (e *Environment) SetLocal(name string, val object.Object) (result object.Object)
 //@   requires validObj(val) && scopesOK(e)
 //@   modifies e.local[*][*]
